@@ -640,8 +640,6 @@ class vDatetime(TimeBase):
         s = f"{dt.year:04}{dt.month:02}{dt.day:02}T{dt.hour:02}{dt.minute:02}{dt.second:02}"
         if tzid == 'UTC':
             s += "Z"
-        elif tzid:
-            self.params.update({'TZID': tzid})
         return s.encode('utf-8')
 
     @staticmethod
